@@ -36,6 +36,7 @@ class Interp(ExprMixin, CallMixin):
         self._attr_index = None
         self._entry_cache = {}
         self._abstract = None
+        self.tagged_sites = {}
 
     # ------------------------------------------------------------ attr index
     def _build_attr_index(self):
